@@ -297,6 +297,15 @@ class Ctx(object):
     def n(self, quick, thorough):
         return quick if self.tier == 'quick' else thorough
 
+    def loop(self, n):
+        """range(n) that stops early when the run's time budget (VERIF_BUDGET_S) is used up; the evidence
+        records how far it got"""
+        for k in range(n):
+            if not self.time_left():
+                self.extra.setdefault('budget_cut', []).append({'planned': n, 'done': k})
+                return
+            yield k
+
     def time_left(self):
         return True if self.deadline is None else time.time() < self.deadline
 
